@@ -170,7 +170,7 @@ def make_case(ctx, g):
     w = World()
     fails = []
     flags = set()
-    b = DocBuilder(g, w, repeat_id=0.6, malformed=0.0, anon=0.3, multi=0.1, twins=0.2, redefault=0.25, defaults=0.5, reclock=0.3)
+    b = DocBuilder(g, w, repeat_id=0.6, malformed=0.0, anon=0.3, multi=0.1, twins=0.2, redefault=0.25, defaults=0.5, reclock=0.3, resplit=0.15)
     d, scopes = b.random_document(n_records=g.rng.randint(2, 9))
     if g.chance(0.2) and b.cross_kind_cluster(g.choice(scopes)):
         flags.add("one-identifier-two-merged-kinds")
